@@ -421,10 +421,14 @@ def parse_function(head, body):
             ret = ret[2:].strip()
         f = Function(name, params, ret)
     else:
-        mo = re.match(r"(const|static mut|static) (.*?): (.*) =$", head, re.S)
+        mo = re.match(r"(const|static mut|static) (.*) =$", head, re.S)
         if not mo:
             return None
-        f = Function(mo.group(2).strip(), [], mo.group(3).strip(), kind="const")
+        rest = mo.group(2)
+        k = find_top(rest, ": ")
+        if k < 0:
+            return None
+        f = Function(rest[:k].strip(), [], rest[k + 2:].strip(), kind="const")
     cur = None
     stmts = []
     for raw in body:
